@@ -404,14 +404,14 @@ def firstErr {α : Type} : List α → (α → Res) → Res
     | .ok _ => firstErr t f
     | .error e => .error e
 
-/-- `checkPort(source)`: the port must be in its parent's inPorts or outPorts -/
+/-- `checkPort(source)`: the port must be in its parent's inPorts, outPorts or (since commit 2aca8d4) inOutPorts -/
 def checkPort (g : G) (sp : Nat) : Res :=
   match g.ports[sp]? with
   | none => .error .badRef
   | some spt =>
     match g.objs[spt.parent]? with
     | none => .error .badRef
-    | some sob => if sp ∈ sob.inPorts ∨ sp ∈ sob.outPorts then .ok () else .error (.notPort sp)
+    | some sob => if sp ∈ sob.inPorts ∨ sp ∈ sob.outPorts ∨ sp ∈ sob.inOutPorts then .ok () else .error (.notPort sp)
 
 /-- body of the `for inP in obj.inPorts` loop -/
 def checkInPort (g : G) (o pid : Nat) : Res :=
